@@ -199,6 +199,21 @@ CLAIMS = {
   note="partial: the shells, their builtins and the tty are the environment (the remote model is validated against the installed bash "
        "5.2 / dash on every case, not proved); the spawned shell is of the same kind; PS1 is not exported by the outer shell.",
   ref="DESIGN.md section 4 C09"),
+ "C10": dict(
+  text="Theorems C10.c10_partial (Spec.C10 holds for EVERY interaction script, command scenario and EVERY fragmentation in which no "
+       "value-returning read ends inside the shell prompt), Run.step_sim / body_sim / enter_sim (simulation between the model of "
+       "RunCommandProxy + Bash/Ash.run on the channel model and the Spec's reference remote), Run.terminate_live, fetchRc_exact, "
+       "next_exact, reading_z (progress: a time-out or endless wait only after everything pending was consumed), and the corollaries "
+       "C10.reading_rule, terminate_rule, terminate0_rule, raises_after_end, terminate_twice, machine_refuses, ownership_c07, "
+       "machine_restored; the full statement is FALSE on this tree — C10.c10_full_is_false / split_witness prove the negation on a "
+       "concrete witness, which the implementation reproduces (known finding KF-C10-split-prompt). Correspondence: the REAL Bash/Ash "
+       "run() against real bash and dash owning the pty as controlling terminal (so ^C reaches the command), a scripted interactive "
+       "helper program (print / read a line / sleep / exit) with side files, every read re-fragmented and the fragmentation replayed "
+       "on the model; Spec.C10 judges every proxy call, the block exit and the next exec on the implementation.",
+  note="partial: proved outside the `splits` shape only (a genuine defect, listed as a known finding: prompt bytes leak to the caller "
+       "and an immediate terminate() waits for ever); the shells, tty signal handling (output is not lost on ^C) and the helper "
+       "program are the environment, validated per case, not proved; send(read_back=True) is specified only when nothing is pending.",
+  ref="DESIGN.md section 4 C10"),
  "C11": dict(
   text="Theorems C11.bytes_roundtrip(_b64), text_roundtrip, write_bytes_spec, read_bytes_spec, write_text_spec, read_text_spec, "
        "text_forbidden, spec_holds, Files.Remote.ttyRead_all (the canonical-mode double-EOF rule), Files.b64_ok: for EVERY byte string d "
